@@ -34,7 +34,9 @@ import (
 	"github.com/gotid/god/rpc/internal/mock"
 	"github.com/gotid/god/rpc/resolver"
 	"google.golang.org/grpc"
+	"google.golang.org/grpc/codes"
 	"google.golang.org/grpc/credentials/insecure"
+	"google.golang.org/grpc/status"
 	"pgregory.net/rapid"
 	"verif.local/kit"
 )
@@ -272,4 +274,158 @@ func c14CliGen(rt *rapid.T) c14CliCase {
 
 func TestVerif_C14_client(t *testing.T) {
 	kit.Run(t, "C14", "client", kit.Opts{Quick: 8, Thorough: 48, NoShard: true}, c14CliGen, c14Client)
+}
+
+// ---------------------------------------------------------------------------
+// client-unhealthy: over real gRPC a backend whose handler fails every call with an
+// unacceptable code is avoided. (Real gRPC reports such a completion to the balancer
+// with BytesSent = BytesReceived = true and a trailer, which hand-built DoneInfo values
+// do not.)
+//
+// Five backends, one of them answers every call with Internal / Unavailable / DataLoss /
+// Unimplemented; sequential calls through a NewClient client.
+//   warm-up  calls until the failing backend's completions span >= 8 s: its calls fail
+//            from the first one on, so with the 10 s decay its score is
+//            <= 1000*exp(-0.8) < 500 whatever the spacing (the statement's "unhealthy
+//            after a bounded number of completions", in the summed form of the bound);
+//   measure  N further calls. While the failing backend is unhealthy and the four others
+//            are healthy (all their calls succeed) it can only be chosen when all three
+//            candidate pairs of a pick contain it: probability (2/5)^3 = 0.064 per pick
+//            whatever the loads and force-picks. The check fails when its share exceeds
+//            0.064 + eps(N, 1e-12) (Hoeffding/Azuma).
+// Any call error other than the failing backend's own code, a dial failure, or a machine
+// too slow to finish in 90 s => Excluded.
+
+type c14SickCase struct {
+	U    int         `json:"u"`    // failing backend 0..4
+	Code int         `json:"code"` // index into c14SickCodes
+	Opts []c14CliOpt `json:"opts"`
+}
+
+var c14SickCodes = []codes.Code{codes.Internal, codes.Unavailable, codes.DataLoss, codes.Unimplemented}
+
+func c14Sick(c c14SickCase) (v kit.Verdict) {
+	const backends, measured = 5, 6000
+	code := c14SickCodes[c.Code%len(c14SickCodes)]
+	counts := make([]int64, backends)
+	var endpoints []string
+	for i := 0; i < backends; i++ {
+		i := i
+		lis, err := net.Listen("tcp", "127.0.0.1:0")
+		if err != nil {
+			return kit.Verdict{Excluded: true, Classes: []string{"listen-failed"}}
+		}
+		srv := grpc.NewServer(grpc.UnaryInterceptor(func(ctx context.Context, req interface{},
+			_ *grpc.UnaryServerInfo, handler grpc.UnaryHandler) (interface{}, error) {
+			atomic.AddInt64(&counts[i], 1)
+			if i == c.U {
+				return nil, status.Error(code, "backend is sick")
+			}
+			return handler(ctx, req)
+		}))
+		mock.RegisterDepositServiceServer(srv, &mock.DepositServer{})
+		go func() { _ = srv.Serve(lis) }()
+		defer srv.Stop()
+		endpoints = append(endpoints, lis.Addr().String())
+	}
+	classes := map[string]bool{"code-" + code.String(): true}
+	done := func() kit.Verdict {
+		for k := range classes {
+			v.Classes = append(v.Classes, k)
+		}
+		sort.Strings(v.Classes)
+		return v
+	}
+	var opts []ClientOption
+	for _, o := range c.Opts {
+		classes["opt-"+o.K] = true
+		switch o.K {
+		case "dial":
+			opts = append(opts, WithDialOption(grpc.WithUserAgent("c14")))
+		case "creds":
+			opts = append(opts, WithTransportCredentials(insecure.NewCredentials()))
+		case "timeout":
+			opts = append(opts, WithTimeout(time.Duration(o.V)*time.Second))
+		case "nonblock":
+			opts = append(opts, WithNonBlock())
+		}
+	}
+	cli, err := NewClient(resolver.BuildDirectTarget(endpoints), opts...)
+	if err != nil {
+		classes["dial-failed"] = true
+		v.Excluded = true
+		return done()
+	}
+	defer cli.Conn().Close()
+	dep := mock.NewDepositServiceClient(cli.Conn())
+	// call reports whether the call was answered by the failing backend
+	call := func() (sick bool, ok bool) {
+		ctx, cancel := context.WithTimeout(context.Background(), 10*time.Second)
+		defer cancel()
+		_, err := dep.Deposit(ctx, &mock.DepositRequest{Amount: 0})
+		if err == nil {
+			return false, true
+		}
+		if status.Code(err) == code {
+			return true, true
+		}
+		classes["call-failed-"+status.Code(err).String()] = true
+		return false, false
+	}
+	start := time.Now()
+	var first, last time.Time
+	warm := 0
+	for first.IsZero() || last.Sub(first) < 8*time.Second {
+		sick, ok := call()
+		if !ok || time.Since(start) > 90*time.Second {
+			v.Excluded = true
+			return done()
+		}
+		warm++
+		if sick {
+			last = time.Now()
+			if first.IsZero() {
+				first = last
+			}
+		}
+		if warm%32 == 0 {
+			time.Sleep(time.Millisecond) // keeps the warm-up at a few thousand calls per second
+		}
+	}
+	base := atomic.LoadInt64(&counts[c.U])
+	for k := 0; k < measured; k++ {
+		if _, ok := call(); !ok || time.Since(start) > 90*time.Second {
+			v.Excluded = true
+			return done()
+		}
+	}
+	got := atomic.LoadInt64(&counts[c.U]) - base
+	eps := kit.HoeffdingEps(measured, 1e-12)
+	limit := math.Pow(2.0/backends, 3) + eps
+	share := float64(got) / measured
+	classes[fmt.Sprintf("sick-share-%.2f..%.2f", math.Floor(share*50)/50, math.Floor(share*50)/50+0.02)] = true
+	if share > limit {
+		v.Fail = fmt.Sprintf("options %+v: backend %d failed every one of its calls with %v for more than 8 s (%d warm-up calls), then still served %d of %d calls (share %.3f > %.3f = (2/5)^3 + eps): it is not avoided",
+			c.Opts, c.U, code, warm, got, measured, share, limit)
+		return done()
+	}
+	v.NonTrivial = true
+	return done()
+}
+
+func c14SickGen(rt *rapid.T) c14SickCase {
+	c := c14SickCase{U: rapid.IntRange(0, 4).Draw(rt, "u"), Code: rapid.IntRange(0, 3).Draw(rt, "code")}
+	n := rapid.IntRange(0, 3).Draw(rt, "nopts")
+	for i := 0; i < n; i++ {
+		o := c14CliOpt{K: rapid.SampledFrom([]string{"dial", "creds", "timeout", "nonblock"}).Draw(rt, "k")}
+		if o.K == "timeout" {
+			o.V = rapid.IntRange(5, 20).Draw(rt, "v")
+		}
+		c.Opts = append(c.Opts, o)
+	}
+	return c
+}
+
+func TestVerif_C14_clientsick(t *testing.T) {
+	kit.Run(t, "C14", "client-unhealthy", kit.Opts{Quick: 1, Thorough: 6, NoShard: true}, c14SickGen, c14Sick)
 }
